@@ -304,6 +304,11 @@ func (c *PullClient) requestPlay() (err error) {
 	c.stream = media.NewStream(c.path, c.rawSdp,
 		media.Attr("addr", c.url.String()),
 		media.Multicast(mproxy))
+
+	// 返回前同步注册：Open 成功返回时流必须已经可见，
+	// 否则紧随其后的同一路径请求找不到它，会再拉一路
+	media.Regist(c.stream) // 向媒体中心注册流
+	stats.RtspConns.Add()  // 增加一个 RTSP 连接计数
 	go c.playStream()
 
 	return nil
@@ -324,8 +329,6 @@ func (c *PullClient) playStream() {
 	}()
 
 	c.logger.Infof("open pull stream")
-	media.Regist(c.stream) // 向媒体中心注册流
-	stats.RtspConns.Add()  // 增加一个 RTSP 连接计数
 
 	lastHeartbeat := time.Now()
 	reader := c.conn.Reader()
